@@ -32,7 +32,8 @@ TASK: produce ONE or TWO (independent, different mechanisms; each as its own pat
   4. comes with a DEMONSTRATION: a small Rust test, example program or shell script that FAILS (or shows the wrong
      behaviour) with the change applied and PASSES on the unchanged code. It may live in a new file (e.g. a new integration
      test under crates/<crate>/tests/ or a small script); it must not modify existing tests. Run it both ways
-     (use `git stash` / `git apply -R` to flip) and record the output.
+     (flip with `git diff > x.diff; git apply -R x.diff` / `git apply x.diff`; do NOT use `git stash` — the stash is
+     shared with other worktrees of the same repository that other people are using at the same time) and record the output.
 Code guarded by `#[cfg(watchexec_verif)]` are verification hooks: leave them alone and do not rely on them.
 
 DELIVERABLES — write them into {wt}/_out/ (create it):
